@@ -122,6 +122,8 @@ def run_recorded(case):
            "mod" if (case["modampl"] and case["modstep"]) else "nomod"]
     napply = case["napply"]
     gaps = np.diff([0] + sorted(k for k in flush_at if k < napply) + [napply])
+    if napply > 65536:
+        cls.append("steps>65536")
     cls.append("gap>1000" if gaps.max() > 1000 else ("gap>100" if gaps.max() > 100 else "gap<=100"))
     for k in range(napply):
         if k in flush_at:
@@ -169,7 +171,14 @@ def recorded_cases(draw):
     c = draw(common())
     # one case in five is a long run on a small grid: record buffers must not depend on the flush cadence
     long = draw(st.integers(0, 4)) == 0
-    if long:
+    verylong = draw(st.integers(0, 39)) == 0
+    if verylong:
+        # beyond 2^16 steps, with flushes before and after that boundary (block-wise / index-width limits of whatever
+        # holds the modulation: round-5 seed C19e builds it in blocks of 65536 and refills from the flushed record count)
+        long = True
+        c["n"] = 8
+        c["steps"] = draw(st.integers(66000, 140000))
+    elif long:
         c["n"] = draw(st.integers(8, 12))
         c["steps"] = draw(st.integers(121, 6000))
     else:
@@ -182,6 +191,9 @@ def recorded_cases(draw):
     c["modstep"] = float(draw(st.floats(1e-3, 0.2))) if mod else 0.0
     c["napply"] = draw(st.integers(max(1, c["steps"] // 2), c["steps"])) if long else draw(st.integers(1, c["steps"]))
     c["flush_at"] = sorted(set(draw(st.lists(st.integers(0, c["napply"]), min_size=0, max_size=4))))
+    if verylong:
+        c["modstep"] = float(draw(st.floats(1e-4, 1e-2))) if mod else 0.0
+        c["flush_at"] = sorted(set(c["flush_at"] + [draw(st.integers(1, 65000))]))
     c["double_flush"] = draw(st.booleans())
     c["prng"] = draw(st.integers(1, 2**31 - 1))
     if not c["linear"]:
